@@ -4,6 +4,7 @@
 # load, other chunking, other worker processes; same hash-seed groups) and
 # diffs the per-run (status, outcome digest, event-log digest, signature).
 set -u
+here=$(cd "$(dirname "$0")/.." && pwd)
 check=$1; runs=$2; shift 2
 seeds=${*:-0}
 d=$(mktemp -d /dev/shm/detaudit.XXXXXX); trap 'rm -rf "$d"' EXIT
@@ -12,7 +13,7 @@ for s in $seeds; do
   for v in a:16 b:16 c:5; do
     tag=${v%%:*}; w=${v##*:}
     VERIF_SEED=$s SIM_WORKERS=$w SIM_OUT_DIR=$d/out SIM_DUMP_DIGESTS=$d/$s.$tag \
-      timeout 3000 /venv/bin/python /verif/simcheck.py $check --runs $runs > $d/log.$s.$tag 2>&1
+      timeout 3000 /venv/bin/python $here/simcheck.py $check --runs $runs > $d/log.$s.$tag 2>&1
     sort -n -t, -k1.2 $d/$s.$tag > $d/$s.$tag.sorted
   done
   n=$(wc -l < $d/$s.a.sorted)
